@@ -75,6 +75,23 @@ impl PlaneSector {
         }
     }
 
+    /// Verification hook: the operation (0 = intersection, 1 = union, 2 = entire plane) and the
+    /// normal vectors of the left and right half planes.
+    #[cfg(feature = "verif_hooks")]
+    pub fn verif_parts(&self) -> (u8, Point, Point) {
+        let operation = match self.operation {
+            Operation::Intersection => 0,
+            Operation::Union => 1,
+            Operation::EntirePlane => 2,
+        };
+
+        (
+            operation,
+            self.half_plane_left.normal_vector,
+            self.half_plane_right.normal_vector,
+        )
+    }
+
     pub fn contains(&self, point: Point) -> bool {
         let correct_side_1 = self.half_plane_left.check_side(point, LineSide::Left);
         let correct_side_2 = self.half_plane_right.check_side(point, LineSide::Right);
